@@ -262,6 +262,15 @@ func (publisher *Publisher) Places() map[string]*place {
 				if individual != nil && individual.IsLiving() {
 					continue
 				}
+
+				// The same goes for the events of their family (where they
+				// married).
+				if individual == nil {
+					family := familyForNode(publisher.doc, node)
+					if family != nil && familyHasLivingSpouse(family) {
+						continue
+					}
+				}
 			}
 
 			prettyName := prettyPlaceName(placeTag.Value())
